@@ -242,11 +242,14 @@ func (f *Frame) callStatic(b *ssa.BasicBlock, in *ssa.Call, callee *ssa.Function
 	if (forcedOpaque || e.callPolicy == "shallow" || (e.callPolicy == "contracts" && sp == nil)) && callee.Blocks != nil && inModule(callee) && !(sp != nil && sp.Inline) {
 		// opaque call: its may-write set is havoced, the result is unconstrained (sound over-approximation)
 		e.funcsUsed[funcFull(callee)] = "opaque (may-write set havoced)"
+		beforeOpaque := st.clone()
 		for _, h := range e.mayWriteNames(callee) {
 			st.heap[h] = e.freshConst(h, e.heapSort[h])
 		}
 		if _, all := mayWriteKeys(e.prog, callee)["*"]; all {
 			st.havocAll()
+		} else {
+			f.keepPreexisting(callee, beforeOpaque, st, g)
 		}
 		e.canonAfterHavoc(st, e.mayWriteNames(callee))
 		na := e.freshConst("alloc", "Int")
@@ -608,6 +611,10 @@ func (f *Frame) contractCall(b *ssa.BasicBlock, in *ssa.Call, callee *ssa.Functi
 	if !sp.Partial {
 		for _, h := range writes {
 			e.assume(implies(g, f.frameFact(h, mods, before, st, before.alloc)))
+		}
+	} else if !sp.Assumed {
+		if _, all := mayWriteKeys(e.prog, callee)["*"]; !all {
+			f.keepPreexisting(callee, before, st, g)
 		}
 	}
 	e.canonAfterHavoc(st, writes)
@@ -1154,4 +1161,29 @@ func mentionsGhost(n *Node, sp *FuncSpec) bool {
 		}
 	}
 	return false
+}
+
+// keepPreexisting: after the may-write set of an opaque (or partial-contract) callee has been havoced, the heaps that the
+// callee and everything it can call write only on objects allocated by the very function that writes them (the
+// may-write analysis' "writes to pre-existing objects" set does not contain them) keep the state of every object that
+// existed before the call.
+func (f *Frame) keepPreexisting(callee *ssa.Function, before, after *State, g string) {
+	e := f.e
+	old := map[string]bool{}
+	keys := mayWriteOldKeys(e.prog, callee)
+	if _, all := keys["*"]; all {
+		return
+	}
+	for _, h := range e.keyNames(keys) {
+		old[h] = true
+	}
+	for _, h := range e.mayWriteNames(callee) {
+		if old[h] || strings.HasPrefix(h, "G$") {
+			continue
+		}
+		if pi, ok := e.mapPair[h]; ok && (old[pi.md] || old[pi.mv]) {
+			continue
+		}
+		e.assume(implies(g, f.frameFact(h, nil, before, after, before.alloc)))
+	}
 }
